@@ -12,6 +12,12 @@ def hook_commits():
         return []
 
 CHECKS = {
+ "C10": dict(
+    level="fault_enumeration",
+    technique="complete enumeration of a fault matrix (configuration class x flag subset x output pre-state x input fault, each with and without --quiet) against the real binary, plus rapid-generated configurations placed in drawn cells with the reference model as verdict oracle",
+    text="Every cell of the 15 x 8 x 5 x 5 matrix is executed in both tiers; the iff between exit status 0 and a complete written file, the untouched -o path on every failure (lstat-level comparison), the numbered list / step count agreement and the --quiet contract are checked in each.",
+    note="Root sandbox: unwritable outputs are injected as directory, missing parent and /dev/full rather than by permissions; stdout faults are out of scope.",
+    ref="DESIGN.md §4 C10"),
  "C08": dict(
     level="exploration",
     technique="differential testing of the real binary against itself: N fresh processes (fresh map-iteration orders) x environment and working-directory variants on hand-built multi-defect documents and rapid-generated configurations; metamorphic key permutations of every YAML mapping",
